@@ -72,11 +72,17 @@ def run(pid, tier):
                 "the bounded legs still decide" % (pid, pr["refinement_violated"]))
 
     # ---- leg B: implementation state graph, one side (quick) + product (thorough) + stub
-    runs = [(SIDE[pid], 4 if quick else 6, "full", "ready"), ("all", 1, "full", "stub")]
+    runs = [(SIDE[pid], 4 if quick else 6, "full", "ready"), ("all", 1, "full", "stub"),
+            # the same side under the validator stack vlsd installs (OnchainValidatorFactory wrapping the simple
+            # validator; funding confirmed and buried): a rule that a delegating wrapper fails to forward
+            # disappears only there
+            (SIDE[pid], 2 if quick else 4, "full", "ready-onchain")]
     if not quick:
         runs.append(("all", 2, "full", "ready"))
-    elif pid == "C02":
-        # both mutual-close entry points (phase 2 and the raw-transaction one) need both sides of the channel
+    elif pid in ("C02", "C03"):
+        # both mutual-close entry points (phase 2 and the raw-transaction one) need both sides of the channel;
+        # C03: the counterparty side with the HOLDER counters moving too (a rule that consults the wrong counter,
+        # e.g. "skip the store write when the holder counter is one ahead", only shows when both advance)
         runs.append(("all", 1, "full", "ready"))
     tot_states = tot_edges = 0
     samples = []
